@@ -7,7 +7,7 @@ from e2e import common, fsck as fsckmod, run_e2e, runner, scenario
 from props.c03 import view_of
 
 EXPECTED = ["C07_crash_during_publish", "C07_crash_during_transfers", "C07_leftovers_ignored", "C07_no_leftovers",
-            "C07_partial_not_unmodified", "C07_partial_not_shortcut", "C07_stale_lock", "C07_crash_invariants", "C07_crash_rerun_converges", "C07_torso_not_accepted", "C07_crash_then_newer"]
+            "C07_partial_not_unmodified", "C07_partial_not_shortcut", "C07_stale_lock", "C07_index_rerun_content", "C07_index_torso_refetched", "C07_crash_invariants", "C07_crash_rerun_converges", "C07_torso_not_accepted", "C07_crash_then_newer"]
 LEVEL = "proof"
 RULE = ("history = (optionally) a fault-free mirror of V1, then a run against V2 = evolve(V1) under a fault-plan class and a "
         "PRNG schedule; the run's filesystem-mutation sequence is cut at crash points k (audit hook fires before the k-th "
@@ -59,7 +59,7 @@ def live_problems(sb, url, cfg, old, new):
     return out, which
 
 
-def run_one(chk, sseed, cls, npoints=6, chunk_level=False, from_empty=False, next_version=False, byhash=False):
+def run_one(chk, sseed, cls, npoints=6, chunk_level=False, from_empty=False, next_version=False, byhash=False, noclean=False):
     rng = random.Random(sseed)
     w = common.World(rng, 1, settings={"wipe_size_ratio": "0", "wipe_count_ratio": "0"})  # S4: wipe protection off
     if byhash:   # directed: by-hash in effect before and after, so that every index has several names in skel
@@ -68,7 +68,7 @@ def run_one(chk, sseed, cls, npoints=6, chunk_level=False, from_empty=False, nex
     clones = []
     no_clean = False
     try:
-        if rng.random() < 0.35:
+        if rng.random() < 0.35 or noclean:
             # a repository that is never cleaned: whatever a dead run leaves behind must be dealt with by the run itself, not by
             # the cleaner happening to sweep it up
             w.lines = [ln for ln in w.lines if not ln.startswith("clean ")]
@@ -102,7 +102,7 @@ def run_one(chk, sseed, cls, npoints=6, chunk_level=False, from_empty=False, nex
         sched_seed = rng.randrange(1 << 30)
         res_ref = run_e2e.execute(ref, [new], stores2, {}, vloop.RandomChooser(sched_seed))
         replay = {"scenario_seed": sseed, "class": cls, "lines": w.lines, "npoints": npoints, "chunk_level": chunk_level,
-                  "from_empty": from_empty, "next_version": next_version, "byhash": byhash}
+                  "from_empty": from_empty, "next_version": next_version, "byhash": byhash, "noclean": noclean}
         if res_ref.exit != 0:
             chk.violation("reference-run-failed", replay, f"fault-free run of V2 exits {res_ref.exit} {res_ref.exception!r}")
             return
@@ -231,6 +231,10 @@ def run(chk, tier, rng):
         # corpus: by-hash worlds whose indices change, killed (among others) between a by-hash file and its other names, rerun
         # against the same upstream
         run_one(chk, f"C07b-{chk.seed}-{i}", "none", npoints=3 if tier == "quick" else 10, byhash=True)
+    for i in range(2 if tier == "quick" else 30):
+        # corpus: never cleaned, killed (among others) inside the swap, rerun against the same upstream: nothing a dead run left
+        # under the temporary names may stay
+        run_one(chk, f"C07n-{chk.seed}-{i}", "none", npoints=2 if tier == "quick" else 10, noclean=True)
     for i in range(n):
         run_one(chk, f"C07-{chk.seed}-{i}", classes[i % len(classes)], npoints=5 if tier == "quick" else 14,
                 chunk_level=(i % 2 == 0), from_empty=(i % 5 == 4), next_version=(i % 3 != 0))
@@ -244,7 +248,7 @@ def replay(rep):
     chk = Check("C07", "quick", 0)
     chk.known = []
     r = rep["replay"]
-    run_one(chk, r["scenario_seed"], r["class"], r.get("npoints", 5), r.get("chunk_level", False), r.get("from_empty", False), r.get("next_version", False), r.get("byhash", False))
+    run_one(chk, r["scenario_seed"], r["class"], r.get("npoints", 5), r.get("chunk_level", False), r.get("from_empty", False), r.get("next_version", False), r.get("byhash", False), r.get("noclean", False))
     for sig, path, msg, _ in chk.violations:
         print(f"REPLAY VIOLATION {sig}: {msg}")
     return 1 if chk.violations else 0
